@@ -45,30 +45,54 @@ def canonPath (path : Str) (hasMore : Bool) : Str :=
   if p.isEmpty ∨ p = ['/'] then (if hasMore then ['/'] else [])
   else if trailing then p ++ ['/'] else p
 
-/-- everything between parsing and `urlunsplit` -/
-def canonParts (puny : Str → Str) (quoted stripFragment : Bool) (p : Parsed) : Split :=
-  let hostname := match p.hostname with
-    | some h => if h.isEmpty then some h else some (lower (decodePunycodeHostname puny h))
-    | none => none
-  let port := match p.port with
-    | some n => if defaultPort p.scheme = some n then none else some n
-    | none => none
+/-- the components of the result before `unsplit_netloc` glues the authority together -/
+structure Comps where
+  scheme : Str
+  user : Option Str
+  pass : Option Str
+  host : Option Str
+  port : Option Nat
+  path : Str
+  query : Str
+  fragment : Option Str
+  deriving DecidableEq, Repr
+
+/-- the host rule (lines 46–48) -/
+def canonHost (puny : Str → Str) (h : Str) : Str := lower (decodePunycodeHostname puny h)
+
+/-- the query rule: split, unescape each key and value, quote them again in quoted mode,
+serialize -/
+def canonQuery (quoted : Bool) (q : Str) : Str :=
+  let qsl := unquoteQsl (safeQslIter q)
+  safeSerializeQsl (if quoted then quoteQsl qsl else qsl)
+
+/-- an optional, possibly empty, text component (`if x:` guards) -/
+def canonOpt (quoted : Bool) (unq : Str → Str) (o : Option Str) : Option Str :=
+  match o with
+  | some u => if u.isEmpty then some u else some (requote quoted unq u)
+  | none => none
+
+/-- everything between parsing and the re-assembly of the authority -/
+def canonComps (puny : Str → Str) (quoted stripFragment : Bool) (p : Parsed) : Comps :=
   let fragment : Option Str := if stripFragment then none else some p.fragment
   let path := canonPath p.path (!p.query.isEmpty || truthy fragment)
-  let user := match p.username with
-    | some u => if u.isEmpty then some u else some (requote quoted unquoteAuthItem u)
-    | none => none
-  let pass := match p.password with
-    | some u => if u.isEmpty then some u else some (requote quoted unquoteAuthItem u)
-    | none => none
-  let path := if quoted then safelyQuote path else unquotePath path
-  let qsl := unquoteQsl (safeQslIter p.query)
-  let qsl := if quoted then quoteQsl qsl else qsl
-  let query := safeSerializeQsl qsl
-  let fragment := match fragment with
-    | some f => if f.isEmpty then some f else some (requote quoted unquoteFragment f)
-    | none => none
-  { scheme := p.scheme, netloc := unsplitNetloc user pass hostname port,
-    path := path, query := query, fragment := fragment }
+  { scheme := p.scheme
+    user := canonOpt quoted unquoteAuthItem p.username
+    pass := canonOpt quoted unquoteAuthItem p.password
+    host := match p.hostname with
+      | some h => if h.isEmpty then some h else some (canonHost puny h)
+      | none => none
+    port := match p.port with
+      | some n => if defaultPort p.scheme = some n then none else some n
+      | none => none
+    path := if quoted then safelyQuote path else unquotePath path
+    query := canonQuery quoted p.query
+    fragment := canonOpt quoted unquoteFragment fragment }
+
+/-- everything between parsing and `urlunsplit` -/
+def canonParts (puny : Str → Str) (quoted stripFragment : Bool) (p : Parsed) : Split :=
+  let c := canonComps puny quoted stripFragment p
+  { scheme := c.scheme, netloc := unsplitNetloc c.user c.pass c.host c.port,
+    path := c.path, query := c.query, fragment := c.fragment }
 
 end Ural.Canonicalize
